@@ -142,6 +142,19 @@ def make_algo(a):
         return UserAdjust(fx(a[1]), bool(a[2]), bool(a[3]))
     if k == "updaterisk":
         return algos.UpdateRisk(measure_of(a[1]), history=int(a[2]))
+    # algos whose kernels are outside the model (implementation-vs-implementation suites only)
+    if k == "selectrandomly":
+        return algos.SelectRandomly(n=int(a[1]))
+    if k == "weighrandomly":
+        return algos.WeighRandomly(bounds=(fx(a[1]), fx(a[2])), weight_sum=1)
+    if k == "weigherc":
+        return algos.WeighERC(lookback=off(0, a[1]))
+    if k == "weighinvvol":
+        return algos.WeighInvVol(lookback=off(0, a[1]))
+    if k == "weighmeanvar":
+        return algos.WeighMeanVar(lookback=off(0, a[1]), bounds=(0.0, 1.0))
+    if k == "targetvol":
+        return algos.TargetVol(fx(a[1]), lookback=off(0, a[2]))
     if k == "hedgerisk1":
         return algos.HedgeRisks([measure_of(a[1])])
     raise ValueError(k)
